@@ -224,6 +224,49 @@ def phase_migration(ctx, R, orc, r, n):
                 ctx.count(("migration", role, state, json.dumps(specs, sort_keys=True)), res.applied > 0)
 
 
+def run_token_cases(ctx, R, orc, r, mds, n, cases):
+    for c in cases:
+        scn = {"role": "client", "seed": r.randrange(1000), "mds": mds, "post": r.choice(["silent", "continue"]),
+               "qlog": r.random() < 0.2}
+        scn.update(c)
+        res = R.run_scenario(scn)
+        orc.judge(R, scn, res)
+        ctx.count(("retry-token", mds, n, scn["state"], json.dumps(scn["inputs"])), res.applied > 0)
+
+
+TOKEN_LENGTHS = [0, 1, 63, 64, 255, 256, 1000] + list(range(1150, 1201, 5)) + [1250, 1400]
+
+
+def phase_retry_tokens(ctx, R, orc, r, thorough):
+    """address-validation tokens of every size in the client's Initial packets: supplied by a Retry
+    with a valid integrity tag (any on-path host can compute it) or by `configuration.token`
+    (NEW_TOKEN of an earlier connection), for max_datagram_size 1200 / 1350 / 1500; Retry after
+    Retry, Version Negotiation before / after Retry.  After the input the client's
+    get_timer / handle_timer / datagrams_to_send / next_event are driven until termination."""
+    v2 = 0x6B3343CF
+    states = ["fresh", "hs0", "hs2", "hs3", "connected"] if thorough else ["hs0", "hs2", "connected"]
+    for second_pass in (False, True):
+      for mds in (1200, 1350, 1500):
+        for n in TOKEN_LENGTHS:
+            cases = []
+            if not second_pass:         # first: one accepted Retry alone, in every state
+                for state in states:
+                    cases.append({"state": state, "inputs": [{"k": "retry", "token_len": n}]})
+                run_token_cases(ctx, R, orc, r, mds, n, cases)
+                continue
+            # token from NEW_TOKEN / configuration: every Initial of the connection carries it
+            cases.append({"state": "hs0", "client_token_len": n, "inputs": [{"k": "raw", "hex": "00"}]})
+            cases.append({"state": "connected", "client_token_len": n, "inputs": [{"k": "frames", "hex": "01"}]})
+            m = r.choice(TOKEN_LENGTHS)
+            cases.append({"state": "hs0", "inputs": [{"k": "retry", "token_len": n}, {"k": "retry", "token_len": m}]})
+            cases.append({"state": "hs0", "client_token_len": m, "inputs": [{"k": "retry", "token_len": n}]})
+            cases.append({"state": "hs0", "client_options": {"supported_versions": [v2, 1]},
+                          "inputs": [{"k": "retry", "token_len": n, "version": v2}, {"k": "vn", "versions": [1]}]})
+            cases.append({"state": "hs0", "client_options": {"supported_versions": [v2, 1]},
+                          "inputs": [{"k": "vn", "versions": [1]}, {"k": "retry", "token_len": n, "version": 1}]})
+            run_token_cases(ctx, R, orc, r, mds, n, cases)
+
+
 def phase_transport_parameters(ctx, R, orc, r, limit):
     muts = R.tp_mutations(r)
     r.shuffle(muts)
@@ -278,7 +321,7 @@ def main(tier):
     ctx = core.Ctx("C05", tier)
     tree.activate()
     regenerate_tables(ctx)
-    ctx.prove(["AQ.Props.C05", "AQ.Props.C05Frames"], [])
+    ctx.prove(["AQ.Props.C05", "AQ.Props.C05Frames", "AQ.Props.C05Send"], [])
     from harness import impl_recvpath as R
     from checks import c05_corr
 
@@ -313,6 +356,10 @@ def main(tier):
     # (b') connection-ID switching with no / one / consumed spare peer connection IDs
     phase_migration(ctx, R, orc, r, 20 if not thorough else 150)
     ctx.notes["t_migration"] = round(time.time() - t0, 1)
+
+    # (b'') Retry / NEW_TOKEN tokens of every size x max_datagram_size; Retry and Version Negotiation sequences
+    phase_retry_tokens(ctx, R, orc, r, thorough)
+    ctx.notes["t_retry_tokens"] = round(time.time() - t0, 1)
 
     # (c) transport parameters
     phase_transport_parameters(ctx, R, orc, r, 120 if not thorough else 10 ** 6)
@@ -357,7 +404,9 @@ def main(tier):
         "Negotiation, mutated/truncated/coalesced genuine datagrams (recorded by the sim), packets built with the "
         "peer's live keys in every epoch carrying every frame type with boundary fields (catalogue of "
         f"{len(cat)} payloads), truncations at random cut points, repetitions inside a packet and as packet "
-        "trains, padded variants, packets addressed to each issued / retired / unknown connection ID of the victim "
+        "trains, padded variants, Retry with valid tag and token lengths 0..1400 (and configuration.token of the same "
+        "sizes) for max_datagram_size 1200/1350/1500 incl. Retry-after-Retry and Version Negotiation before/after "
+        "Retry, packets addressed to each issued / retired / unknown connection ID of the victim "
         "while it holds no, one, several or no-longer-any spare peer connection ID (peer withholding "
         "NEW_CONNECTION_ID; spares consumed by change_connection_id()), crafted transport parameters announced by a real peer; after the inputs the "
         "victim's timer/transmit/event calls are driven until ConnectionTerminated. Non-trivial = the input was "
